@@ -18,6 +18,7 @@ from vmon.bridge import model_of_tx, script_raw_from_fields
 from vmon.core import outcome
 
 PROPERTY_ID = "C10"
+REPO_TEST_MODULES = ["test_psbt", "test_psbt_helper"]  # thorough tier: run as an extra workload under the contracts
 RULE = (
     "cases = signing histories (wallet kind, m-of-n, inputs, signer subset, order, combine shape) executed on "
     "parse(serialize()) copies, plus codec round trips of every intermediate PSBT and PSBTs with corrupted partial "
